@@ -17,8 +17,11 @@
 
    Representation.
      cell   = a value in a row: None | int | str              (the generators use nothing else)
-     field  = StructField(name, dataType, nullable); dataType is a small integer code (StructField.__eq__
-              compares name, dataType, nullable, metadata; metadata is always empty here)
+     field  = StructField(name, dataType, nullable) of a BOUND schema: FieldIdGenerator.bind_schema gives every
+              field of a DataFrame's schema a unique `id` attribute, and StructField.__eq__ compares __dict__
+              (id, name, dataType, nullable, metadata), so `field not in on_fields` removes exactly the
+              fields that get_on_fields picked, not other fields that merely look the same.
+              dataType is a small integer code; metadata is always empty here
      row    = (row.__fields__, tuple(row))
      table  = (bound schema, list of partitions); every RDD method used here starts from
               toLocalIterator()/collect(), i.e. from the concatenation of the partitions.
@@ -60,10 +63,11 @@ Fixpoint cells_eqb (a b : list cell) : bool :=
   | _, _ => false
   end.
 
-Record field : Set := mkField { fname : name; ftype : Z; fnullable : bool }.
+Record field : Set := mkField { fid : N; fname : name; ftype : Z; fnullable : bool }.
 
 Definition field_eqb (f g : field) : bool :=
-  name_eqb (fname f) (fname g) && Z.eqb (ftype f) (ftype g) && Bool.eqb (fnullable f) (fnullable g).
+  N.eqb (fid f) (fid g) && name_eqb (fname f) (fname g) && Z.eqb (ftype f) (ftype g)
+  && Bool.eqb (fnullable f) (fnullable g).
 
 Definition schema := list field.
 Definition names_of (s : schema) : list name := map fname s.
@@ -248,7 +252,7 @@ Definition merge_schemas (ls rs : schema) (h : how) (on : list name) : result sc
             match choice with
             | OnLeft => lof
             | OnRight => rof
-            | OnLeftNullable => map (fun f => mkField (fname f) (ftype f) true) lof
+            | OnLeftNullable => map (fun f => mkField 0 (fname f) (ftype f) true) lof   (* fresh, unbound fields *)
             end in
           Ok (on_fields ++ other_left ++ (if schema_drops_right h then [] else other_right))
       | None => Err "IllegalArgumentException"
